@@ -110,6 +110,10 @@ SIGMA = {'function_index': 'func', 'type_index': 'ty', 'table_index': 'table', '
          'relative_depth': 'label', 'array_data_index': 'data', 'array_elem_index': 'elem'}
 
 
+def wp_qual(t):
+    return 'wasmparser::' + t if t in ('BlockType', 'MemArg', 'BrTable', 'ValType', 'Ieee32', 'Ieee64', 'V128', 'HeapType', 'Unmodelled') else t
+
+
 def conv_field(opname, fname, ftype, target_type):
     """spec expression converting operator field `fname` (bound by the match) to the instruction side"""
     if ftype == 'u32' and fname in SIGMA:
@@ -215,7 +219,7 @@ def generate(repo, want_parts=False):
         else:
             args = ''.join('%s, ' % f for f, _ in o['fields'])
             w('        %s => Some(mirror_%s(%ss)),' % (pat, n, args))
-            params = ''.join('%s: %s, ' % (f, WP_TYPES.get(t, 'Unmodelled')) for f, t in o['fields'])
+            params = ''.join('%s: %s, ' % (f, wp_qual(WP_TYPES.get(t, 'Unmodelled'))) for f, t in o['fields'])
             small.append('pub open spec fn mirror_%s(%ss: Sigma) -> Instruction { %s }' % (n, params, expr))
     w('    }')
     w('}')
